@@ -397,6 +397,12 @@ func derefStruct(t types.Type) (*types.Struct, bool, types.Type) {
 
 // fieldAddr resolves x.f (f reached through pointers) to the address of the field.
 func (env *SpecEnv) fieldAddr(e ast.Expr) (PtrV, int, int) {
+	p, off, w, _ := env.fieldAddrT(e)
+	return p, off, w
+}
+
+// fieldAddrT also returns the static type of the object that holds the field.
+func (env *SpecEnv) fieldAddrT(e ast.Expr) (PtrV, int, int, types.Type) {
 	sel, ok := e.(*ast.SelectorExpr)
 	if !ok {
 		specErr("not a field selector")
@@ -419,7 +425,7 @@ func (env *SpecEnv) fieldAddr(e ast.Expr) (PtrV, int, int) {
 		if isPtr {
 			p := cur.v.(PtrV)
 			if last {
-				return PtrV{p.ref, p.idx}, off, width(ft)
+				return PtrV{p.ref, p.idx}, off, width(ft), cur.t.Underlying().(*types.Pointer).Elem()
 			}
 			cur = TV{env.vc.load(env.st, PtrV{p.ref, add(p.idx, off)}, ft), ft}
 		} else {
@@ -430,7 +436,7 @@ func (env *SpecEnv) fieldAddr(e ast.Expr) (PtrV, int, int) {
 		}
 	}
 	specErr("empty selector path")
-	return PtrV{}, 0, 0
+	return PtrV{}, 0, 0, nil
 }
 
 func (env *SpecEnv) pkgOrNil() *types.Package { return env.pkg }
